@@ -128,6 +128,26 @@ Mixed(n, a, b) == [i \in 1..n |-> (a * i * i + b * i + a + b) % 47]
 MixedTapes(n) == { Mixed(n + 4, ab[1], ab[2]) : ab \in (IF Tier = "quick" THEN {<<3, 7>>, <<5, 11>>, <<17, 2>>} ELSE {1, 3, 5, 7, 11, 13, 17, 19, 23} \X {2, 7, 9, 14, 22, 31}) }
 Tapes(alts) == Tapes1(alts) \cup MixedTapes(Len(alts))
 
+(* C20: a corpus of whole programs with standard-input contents: succeeding, failing at run time after output, reading input *)
+CliCorpus(z) == {
+  [tree |-> << <<Say(S("hello")), Say(B("plus", N(1), N(2)))>> >>, inp |-> <<>>],
+  [tree |-> << <<SListen(0, X), Say(X), SListen(0, Y), Say(B("plus", Y, S("!")))>> >>, inp |-> <<"first" \o NL, "second">>],
+  [tree |-> << <<SListen(0, X), Say(X), SListen(0, X), Say(X)>> >>, inp |-> <<>>],
+  [tree |-> << <<Say(S("before")), Say(Un("neg", S("str"))), Say(S("after"))>> >>, inp |-> <<>>],
+  [tree |-> << <<Say(S("one"))>>, <<Say(S("two")), SRoll(0, X, ENone)>>, <<Say(S("never"))>> >>, inp |-> <<>>],
+  [tree |-> << <<Put(N(0), "x"), SWhile(0, B("lt", X, N(3)), <<SInc(0, X, 1), Say(X)>>), Say(S("done"))>> >>, inp |-> <<>>],
+  [tree |-> << <<SFunc(0, "f", <<"p">>, <<SReturn(0, B("times", Var("p"), N(2)))>>), Say(Call("f", <<N(21)>>)), Say(Call("f", <<N(1), N(2)>>))>> >>, inp |-> <<>>],
+  [tree |-> << <<Put(N(5), "x"), Put(N(5), "x"), Say(X), Say(X), SRock(0, Y, <<N(3)>>), Put(Un("neg", N(5)), "z")>> >>, inp |-> <<>>],
+  [tree |-> << <<Say(Y)>> >>, inp |-> <<>>],
+  [tree |-> << <<SListen(0, ENone), SListen(0, X), Say(X)>> >>, inp |-> <<NL, "x y" \o NL, "unused" \o NL>>],
+  [tree |-> << <<>> >>, inp |-> <<>>],
+  [tree |-> << <<SPStr(0, X, "some text  "), Say(X), SMut(0, "cut", X, ENone, S(" ")), Say(X), Say(Idx(X, N(1)))>> >>, inp |-> <<>>]
+}
+CliCases(z) == { LET nm == Naming(0) r == Render(<<>>, nm, cc.tree) fin == RunAll(Init0(cc.tree, cc.inp, -1, 0)) IN
+                 [k |-> "cli", text |-> r.text, inp |-> cc.inp, out |-> fin.out, st |-> fin.st] : cc \in CliCorpus(z) }
+LoadCli == /\ c.k = "init" /\ Family = "cli"
+           /\ c' \in CliCases(0)
+
 (* C13: every fault of the catalogue in every context; letter case varied as a whole *)
 FaultCases(z) ==
   UNION { UNION { { [k |-> "fault", kind |-> FA!All[g][1], fault |-> FA!All[g][2][i],
@@ -145,7 +165,7 @@ LoadOpen == /\ c.k = "init" /\ Family = "poetic"
 Init == c = [k |-> "init"]
 LoadFaults == /\ c.k = "init" /\ Family = "fault"
               /\ c' \in FaultCases(0)
-Load == /\ c.k = "init" /\ Family # "fault"
+Load == /\ c.k = "init" /\ Family \notin {"fault", "cli"}
         /\ \E t \in Trees(0), off \in NamingOffsets : c' = [k |-> "tree", tree |-> t, off |-> off]
 Vary == /\ c.k = "tree"
         /\ LET nm == Naming(c.off)
@@ -155,13 +175,14 @@ Vary == /\ c.k = "tree"
                 c' = [k |-> "text", tree |-> c.tree, naming |-> nm, tape |-> tp, text |-> r.text, lines |-> r.lines]
 Strip == /\ c.k = "text" /\ c.tape = <<>>          \* the canonical rendering also without its trailing line ends
          /\ c' = [c EXCEPT !.k = "stripped", !.text = StripTrailingNl(c.text)]
-Next == Load \/ LoadFaults \/ LoadOpen \/ Vary \/ Strip
+Next == Load \/ LoadFaults \/ LoadOpen \/ LoadCli \/ Vary \/ Strip
 
 PoeticDigits(t) ==      \* the digits the first statement's poetic literal spells (C11), when it has one
   LET s == t[1][1]
       e == IF s.s = "pnum" THEN s.e ELSE IF s.s = "rock" /\ s.vals # <<>> THEN s.vals[1] ELSE ENone
   IN IF e.e = "plit" THEN PO!Digits(e.elems) ELSE [ip |-> <<>>, fp |-> <<>>]
 Emit == c.k \in {"init", "tree"} \/
+        (c.k = "cli" /\ PrintT(<<"R", ToJson([fam |-> "cli", text |-> c.text, inp |-> c.inp, out |-> c.out, st |-> c.st])>>)) \/
         (c.k = "saysopen" /\ PrintT(<<"R", ToJson([fam |-> "saysopen", text |-> c.text, str |-> c.str])>>)) \/
         (c.k = "fault" /\ PrintT(<<"R", ToJson([fam |-> "fault", kind |-> c.kind, fault |-> c.fault, text |-> c.text, line |-> c.line])>>)) \/
         PrintT(<<"R", ToJson([fam |-> "syntax", family |-> Family, text |-> c.text, tree |-> c.tree, naming |-> c.naming,
